@@ -7,7 +7,16 @@
  *     janet_buffer_ensure / janet_escape_string_impl / janet_buffer_push_u8 are recording stubs.
  * (2) h_alias_content - the result, with the REAL buffer.c and a realloc that always MOVES the storage (old block really
  *     deallocated): the text appended is @ + the literal of the contents the buffer had when the call started - it parses back to
- *     the value that was printed -, the old contents stay in front of it, and no byte is read from storage that was freed. */
+ *     the value that was printed -, the old contents stay in front of it, and no byte is read from storage that was freed.
+ *
+ * FINDINGS (reproduced on /repo/_build/janet):
+ *  (2) fails: (def b @"abc") (buffer/format b "%j" b) (pp b)  ->  @"abc@\"abc@\""   i.e. the appended literal is @"abc@" - the @ that was
+ *      just pushed is read as part of the value (bx->count is read after the push); %p appends the correct @"abc".
+ *      Repair (checked: the four content units pass): read bx->count before pushing the @.
+ *  (1) fails for count >= 357913941: the int32 expression bx->count + 5 * bx->count + 3 overflows, nothing is reserved, the storage moves
+ *      while it is being read:  (def b (buffer/new-filled 400000000 1)) (buffer/format b "%j" b)  ->  SIGSEGV (300000000 bytes: fine).
+ *      Native reproducer with a poisoning realloc: /verif/harness/pp_repro_self_buffer.c.  Repair: compute the reservation in int64 and
+ *      raise "buffer overflow" when it exceeds INT32_MAX (as janet_buffer_extra does). */
 #include "prelude.h"
 void __CPROVER_deallocate(void *);
 #define PA(c, msg) __CPROVER_assert(c, "C11 alias: " msg)
